@@ -11,6 +11,8 @@
 (*                    inserted anywhere is transparent)                    *)
 (*   rel = "sigma"  : id-free isomorphism under a variable permutation +   *)
 (*                    negation mask (C17: presentation independence)       *)
+(*   rel = "fallback": run b computes every seed with the symbolic         *)
+(*                    fallback; the same attractors node by node (C12)     *)
 (*   rel = "below"  : run b (sources fixed to a valuation) is isomorphic   *)
 (*                    to the part of run a below the node of that          *)
 (*                    valuation, with the same attractors (C18)            *)
@@ -100,6 +102,17 @@ Related(ea, eb) ==
                 hasval == \E i \in DOMAIN ea.post.nodes : ea.post.nodes[i].space = eb.post.nodes[1].space
             IN (IF (hasval \/ tr.canonical) => (na = IdFreeNodes(eb.post, Id) /\ eda = edb) THEN {} ELSE {"ISO"})
                \cup (IF atA = AttrSets(eb.post, Id) THEN {} ELSE {"ATTR"})
+      [] tr.rel = "fallback" ->
+            \* C12: a = the history with the default attractor method, b = the same history with every seed computed by the
+            \* fully symbolic fallback (forced by a tiny candidate limit): node by node the same attractors
+            LET NodeAttr(nd) == {SeqToSet(nd.sets.v[k]) : k \in DOMAIN nd.sets.v} IN
+            (IF /\ Len(ea.post.nodes) = Len(eb.post.nodes)
+                /\ \A i \in DOMAIN ea.post.nodes :
+                      /\ ea.post.nodes[i].space = eb.post.nodes[i].space
+                      /\ ea.post.nodes[i].sets.k = eb.post.nodes[i].sets.k
+                      /\ NodeAttr(ea.post.nodes[i]) = NodeAttr(eb.post.nodes[i])
+                      /\ Len(ea.post.nodes[i].sets.v) = Len(eb.post.nodes[i].sets.v)
+             THEN {} ELSE {"ATTR"})
       [] OTHER -> {"UNKNOWN"}
 
 Init == /\ \E i \in DOMAIN Traces : tr = Traces[i]
